@@ -400,3 +400,11 @@ impl<P: Prefix> FromIterator<P> for PrefixSet<P> {
         set
     }
 }
+
+#[cfg(feature = "verif-hooks")]
+impl<P: Prefix> PrefixSet<P> {
+    /// Read-only snapshot of the node arena (see [`crate::map::VerifArena`]).
+    pub fn verif_arena(&self) -> crate::map::VerifArena {
+        self.0.verif_arena()
+    }
+}
